@@ -1,8 +1,8 @@
-\* c4none2
+\* c32
 SPECIFICATION Spec
 CONSTANTS
-  Cand <- Cand4
-  MandSeq <- MandNone
+  Cand <- Cand3
+  MandSeq <- Mand13
   DscMandatory = TRUE
   FlipReset = TRUE
   Export = FALSE
